@@ -14,7 +14,7 @@ import (
 )
 
 var (
-	c34Strict = regexp.MustCompile(`^[0-9]+(\.[0-9]+)?$`)
+	c34Strict = regexp.MustCompile(`^([0-9]+(\.[0-9]*)?|\.[0-9]+)$`) // w, w.f, w., .f
 	c34Unit   = new(big.Int).Exp(big.NewInt(10), big.NewInt(int64(consts.Decimals)), nil)
 	c34Max    = new(big.Int).SetUint64(^uint64(0))
 )
